@@ -106,6 +106,9 @@ def run(pid, tier, seed, njobs=None):
             jobs.append(tree_contention_job(rng, "c11-%05d" % i))
         elif m == 1:
             jobs.append(init_race_job(rng, "c11-%05d" % i))
+        elif m == 4 and i % 10 == 4:
+            import c10
+            jobs.append(c10.overdue_job(rng, "c11-%05d" % i))       # an overdue resize met by a removal / compute under its bin lock
         elif m == 4:
             jobs.append(stale_reader_job(rng, "c11-%05d" % i))
         else:
